@@ -51,6 +51,18 @@ Theorem C06_rows_independent_of_block_cut : forall d c a b,
 Proof. exact rows_cut_at_newline. Qed.
 Print Assumptions C06_rows_independent_of_block_cut.
 
+(* timestamps keep their instant: the repaired scaling by the precision factor stores exactly t * factor, and only when
+   that is within int64 *)
+Theorem C06_timestamp_scaled_exactly : forall mult r r',
+  scale_row cfg_repaired mult r = Ok r' ->
+  r_name r' = r_name r /\ r_tags r' = r_tags r /\ r_fields r' = r_fields r /\
+  match r_ts r with
+  | None => r_ts r' = None
+  | Some t => r_ts r' = Some (t * mult) /\ t * mult <= max_int64
+  end.
+Proof. exact scale_row_repaired_exact. Qed.
+Print Assumptions C06_timestamp_scaled_exactly.
+
 (* int_exact_iff: the int64 -> float64 -> int64 passage today's code applies to every integer field returns the
    integer written iff it is a 53-bit mantissa times a power of two (so: every |n| <= 2^53, and beyond that only the
    multiples of the matching power of two) *)
